@@ -28,11 +28,11 @@ def gen_filter_case(ctx):
     argv = ["--no-index"]
     r0 = rng.choice(reads)
     if rng.random() < 0.6:
-        argv += ["-m", str(max(0, len(r0[1]) + rng.choice([-1, 0, 1])))]
+        argv += ["-m", str(max(0, len(r0[1]) + rng.choice([-1, 0, 1]))) if rng.random() < 0.9 else "0"]
         if rng.random() < 0.6:
             argv += ["--too-short-output", "{dir}/ts1.fastq"]
     if rng.random() < 0.6:
-        argv += ["-M", str(len(rng.choice(reads)[1]) + rng.choice([-1, 0, 1, 3]))]
+        argv += ["-M", str(len(rng.choice(reads)[1]) + rng.choice([-1, 0, 1, 3])) if rng.random() < 0.9 else "0"]
         if rng.random() < 0.6:
             argv += ["--too-long-output", "{dir}/tl1.fastq"]
     if rng.random() < 0.5:
@@ -41,7 +41,7 @@ def gen_filter_case(ctx):
         argv += ["--max-n", rng.choice([str(nn), str(max(0, nn - 1)), "0", repr(nn / len(r[1])) if r[1] else "0.5", "0.2", "0.5"])]
     if rng.random() < 0.5:
         r = rng.choice(reads)
-        argv += ["--max-ee", rng.choice([repr(ee(r[2])), repr(ee(r[2]) * 0.999), "0.5", "1", "3"])]
+        argv += ["--max-ee", rng.choice([repr(ee(r[2])), repr(ee(r[2]) * 0.999), "0.5", "1", "3", "0", "0.0"])]
     if rng.random() < 0.4:
         r = rng.choice(reads)
         v = ee(r[2]) / len(r[1]) if r[1] else 0.1
